@@ -389,6 +389,9 @@ int EGLPNUM_TYPENAME_ILLprice_build_mpartial_info (
 	EGLPNUM_TYPENAME_mpart_info *p;
 
 	p = (pricetype == COL_PRICING) ? &(pinf->pmpinfo) : &(pinf->dmpinfo);
+	/* the record is rebuilt at every solve that keeps the pricing information
+	 * (warm dual re-solve): release what the previous solve left in it */
+	EGLPNUM_TYPENAME_ILLprice_free_mpartial_info (p);
 	p->k = 50;
 	p->cgroup = 0;
 	nelems = (pricetype == COL_PRICING) ? lp->nnbasic : lp->nrows;
